@@ -121,6 +121,17 @@ SHARDS_RUN = {"cmd": "shards", "mode": "shards", "cases": {"quick": 60, "thoroug
 # the commit / rollback pipelines of lib.rs + store/mod.rs + store/sync.rs: the real calls with every I/O event failing (hook H1) against the
 # Lean step-sequence mirror (Api/Pipeline.lean, driver mode `pipeline`)
 PIPE_RUN = {"cmd": "pipeline", "mode": "pipeline", "cases": {"quick": 20, "thorough": 480}, "shards": {"quick": 4, "thorough": 16}}
+# the lock / micro-step recorder (hook H19): real multi-threaded schedules of the real store, recorded marker by marker, replayed in the two-lock LTS
+# (Api/Locks2*.lean, Api/Locks2Replay.lean; driver mode `locks`): every recorded micro-step is the thread's next one and ENABLED in the model, every result is the model's
+LOCKREC_RUN = {"cmd": "lockrec", "mode": "locks", "cases": {"quick": 320, "thorough": 9600}, "shards": {"quick": 4, "thorough": 16}}
+LOCKREC_RULE = (" lockrec: per case ONE recorded schedule — a fresh store, 2…6 threads running 2…4 generated tasks each (session + blocking / non-blocking commit with retries, session + reads + drop, "
+                "chains of 1…3 overlays committed oldest first or child first, non-blocking commit while the thread's own session is alive, rollback 0…3, Nomt::root, Nomt::read; four task mixes), random yields / 20…270 µs sleeps at the "
+                "marker sites (three intensities), never a blocking acquisition by a session owner (the F19 pattern stays in `locks-scenarios`), under a 20 s watchdog. The global marker log (real-time order) is rendered as `call` / `at` / `atv` / `spur` lines: "
+                "acquisitions at their `got` marker, releases of the access lock lazily inside `pre … post`, failed `try_write`s at the first moment of `pre … busy` at which the model's lock is held (else the late `got` of the real holder is placed before it, "
+                "else — nobody can hold it — the parking_lot PARKED_BIT event `spur`). K = the model answers every line like the real code: `ok ran` (the step is the thread's next micro-step and enabled), the value an observation step sees "
+                "(session base root, Nomt::root, the stamp read through a session mapped to its root), `ok finished <result>` with the REAL result (ok / busy / err-stale / err-parent / err-not-enough), and the `final` line (root, content, rollback-log length, "
+                "poison flag, verdicts in write-guard order). Oracles independent of the model: a session reads the stamp of the state its base root names; the write sections in write-guard order, replayed by a 20-line sequential interpreter in the harness, give every "
+                "real result, the final root and the log length; final state not torn; not poisoned; no panic; terminates. distinct & non-trivial = distinct rendered schedules with at least 2 calls started while another thread was inside a call.")
 # corpus: the history in which `rollback(1)` on a poisoned handle panicked in a merkle worker (finding F21, repaired by f36444c: must pass)
 PIPE_CORPUS = [{"cmd": "pipeline", "mode": "pipeline", "args": ["--only-case", "5"], "cases": {"quick": 6, "thorough": 6}, "shards": {"quick": 1, "thorough": 1}, "seed": 23, "corpus": True}]
 PIPE_RULE = (" pipeline: per case a generated history (session commits, an overlay commit, a rollback; 8 KiB rollback segments in a third of the cases, fat values in a third, the very first commit of a fresh "
@@ -376,9 +387,14 @@ PROPS = {
     },
     "C15": {
         "runs": [{"cmd": "locks-scenarios", "cases": {"quick": 1, "thorough": 1}, "corpus": True},
-                 {"cmd": "stress", "args": ["--millis", "600"], "cases": {"quick": 2, "thorough": 8}, "shards": {"quick": 4, "thorough": 16}, "per_shard_cases": True}],
-        "rule": "cases = threaded runs (child process under a 30 s watchdog) with (4,3), (2,4), (6,2), (1,5) reader/writer threads for 600 ms each: writers read the current stamp in a session, write a fresh stamp to 9 stamp keys spread over several root children (plus private churn; every fifth stamp is an overflow value) and commit blocking / non-blocking (retrying while deferred) / as overlay; readers open sessions of random lifetime, read all stamp keys 1-4 times and prove a third of them. Oracles: one session never sees two stamps; every proof verifies against the session's own base root and confirms the value read; the successful commits form a chain from the final stamp back to the initial state (each winner's base stamp is the previous winner's stamp; every reported success is on the chain); the final state is not torn; no thread panics; the run terminates. distinct & non-trivial = completed runs.",
-        "trusted_base": ["lock protocol LTS Api/Locks.lean is a hand-written abstraction of access_lock / shared root check in nomt/src/lib.rs", "the OS scheduler decides which interleavings the stress run exhibits"],
-        "assumptions": ["schedules are sampled, not enumerated (no yield-point hook installed)", "rollbacks are not part of the stamp-chain stress (they take the same write guard; exercised single-threaded by C09)"],
+                 {"cmd": "stress", "args": ["--millis", "600"], "cases": {"quick": 2, "thorough": 8}, "shards": {"quick": 4, "thorough": 16}, "per_shard_cases": True},
+                 dict(LOCKREC_RUN)],
+        "rule": "stress: cases = threaded runs (child process under a 30 s watchdog) with (4,3), (2,4), (6,2), (1,5) reader/writer threads for 600 ms each: writers read the current stamp in a session, write a fresh stamp to 9 stamp keys spread over several root children (plus private churn; every fifth stamp is an overflow value) and commit blocking / non-blocking (retrying while deferred) / as overlay; readers open sessions of random lifetime, read all stamp keys 1-4 times and prove a third of them. Oracles: one session never sees two stamps; every proof verifies against the session's own base root and confirms the value read; the successful commits form a chain from the final stamp back to the initial state (each winner's base stamp is the previous winner's stamp; every reported success is on the chain); the final state is not torn; no thread panics; the run terminates. distinct & non-trivial = completed runs." + LOCKREC_RULE,
+        "trusted_base": ["lock protocol LTS Api/Locks2.lean: hand-written micro-step programs, tied to the source's step order by Props/C15_LockOrder (rfl against Generated/StepOrder.lean) and to real executions by the lockrec replay",
+                         "the lockrec renderer (harness/src/lockrec.rs, ~250 lines): places every LTS step inside the real-time interval its markers bound; a wrong placement can only make the replay fail, except that it is trusted to respect the intervals",
+                         "parking_lot's two write phases are not observable: A.write1 / A.write2 are placed together at the `got` marker",
+                         "the OS scheduler (plus the pauses at marker sites) decides which interleavings are exhibited"],
+        "assumptions": ["schedules are sampled, not enumerated", "no I/O failure is injected in recorded schedules (IoPlan = ok): the failing-I/O paths of the LTS are covered by the pipeline differential of C14 only sequentially",
+                        "callers keep the discipline of T15.7 (F19 is the known finding for the others)"],
     },
 }
